@@ -205,9 +205,12 @@ def _parse_lists(out, names):
     return res
 
 
-def coq_eval_cases(tag, imports, ctype, cases, checkers, shard=400, timeout=900):
+def coq_eval_cases(tag, imports, ctype, cases, checkers, shard=None, timeout=900):
     """Evaluate boolean checkers (Gallina, committed) on implementation observations inside Coq.
     Returns {checker: [failing case indices]} and a list of errors."""
+    if not shard:
+        # spread over the 16 cores, but keep shards big enough to amortise loading the libraries
+        shard = min(400, max(20, (len(cases) + 15) // 16))
     d = os.path.join(BUILD, "cases", tag)
     os.makedirs(d, exist_ok=True)
     for old in glob.glob(os.path.join(d, "*")):
@@ -316,7 +319,7 @@ class Check:
             return None
         return json.load(open(outp))
 
-    def cases(self, name, out, imports, ctype, corr=(), spec=(), premise=(), known_tags=None):
+    def cases(self, name, out, imports, ctype, corr=(), spec=(), premise=(), known_tags=None, shard=None):
         """Evaluate committed Gallina checkers on the harness output.
         corr: model = implementation; spec: the property evaluated on implementation observations;
         premise: non-vacuity counters (a case counts as non-trivial when all premises hold)."""
@@ -329,7 +332,7 @@ class Check:
             okb, logb = coq_make(mods)
             if not okb:
                 self.broken.append({"kind": "proof", "what": "Coq build of the checker definitions failed (%s)" % " ".join(mods), "detail": logb[-2000:]})
-        res, errors = coq_eval_cases(self.prop + "_" + name, imports, ctype, cases, checkers)
+        res, errors = coq_eval_cases(self.prop + "_" + name, imports, ctype, cases, checkers, shard=shard)
         n = len(cases)
         self.cov["evaluations"] += n
         self.cov["traces_validated_against_impl"] += n
